@@ -84,6 +84,9 @@ func c15Leaf(k *fw.K, sp actSpec, shape []int, class int) {
 	if k.Index%3 == 0 { // the object first saw a batch of the same shape that is not finite
 		actPoison(k, obj, shape)
 	}
+	if k.Index%4 == 1 {
+		refusedCalls(k)
+	}
 	rx := rt.MustLeaf(x, true)
 	var ry tensor.Tensor
 	if p := call(func() {
